@@ -23,7 +23,7 @@
                                 element's own address and data; `sent` = its datagram left (it does not when
                                 the server is closed, the write fails, or Close() cancelled it first)
      announce.go 166-186        QReturn (Server.GetPeers returned), QDeliver (a.Peers <- v),
-                                QAbandon (<-a.traversal.Stopped())
+                                QAbandon (<-a.traversal.Stopped(); repaired: <-a.closed.Done())
      announce.go 195-211        EClose, EStopTrav
      getput.go 26-75            OStartTrav+OGetNodes (startGetTraversal), QReturn (acceptance rule =
                                 Bep44.client_accept; AccPanic = the nil dereference D2), QDeliver (vChan <- v),
@@ -34,9 +34,10 @@
 
    Variants.  [lc_variant = Pinned] is the tree as found: Bootstrap / Get / Put return without Stop()
    when no starting nodes can be obtained (D8) and the get-reply handler dereferences a nil seq (D2).
-   [Repaired] stops the traversal on that path and ignores such a reply.  [lc_abandon_ctx = false]
+   [Repaired] stops the traversal on that path and ignores such a reply.  [lc_abandon_closed = false]
    is announce.go as found: a delivery is given up only on Stopped(), which cannot happen while that very
-   query is in flight (finding D10); [true] gives it up when the traversal is stopping (ctx.Done()).
+   query is in flight (finding D10); [true] gives it up once the announce is CLOSED (a.closed.Done()):
+   StopTraversing alone keeps the obligation to deliver and the consumer's duty to keep reading.
 
    Goroutines of one announcePeer / Put run in any order; they share nothing but the record of what was
    sent, so the model issues them in list order.  A query that returns (QReturn) may carry any result
@@ -75,7 +76,7 @@ Inductive opc :=
 Record lcfg := mkLC {
   lc_api : api;
   lc_variant : variant;            (* Bep44.variant: Pinned | Repaired (D8, D2) *)
-  lc_abandon_ctx : bool;           (* false = announce.go as found (D10) *)
+  lc_abandon_closed : bool;        (* false = announce.go as found (D10); true = give a delivery up once Close() was called *)
   lc_sn : sn_outcome;
   lc_budget : nat;
   lc_target : N;                   (* infohash / target as a number *)
@@ -290,7 +291,7 @@ Section Lookups.
         (if is_announce c then l_reads s else opc_eqb (l_owner s) OWait)
     | QAbandon q =>
         tq_at s q PDeliver &&
-        (if is_announce c then (if lc_abandon_ctx c then l_stopping s else l_stopped s) else l_stopping s)
+        (if is_announce c then (if lc_abandon_closed c then l_aclosed s else l_stopped s) else l_stopping s)
     | QFinish q => tq_at s q PReturn
     | ECtx => negb (l_ctx s)
     | EClose => l_handle s && negb (l_aclosed s)
